@@ -557,6 +557,60 @@ def s5_escape(prog, rep, P, tag=""):
     rep.floor(P + " ReceivedPdu constructions" + tag, n, 3)
 
 
+HANDLE_TYPES = ("ReceivedFrame", "CreatedFrame", "SendableFrame", "ReceivingFrame")
+
+
+def s5_handle_escape(prog, rep, P, tag=""):
+    """A typestate handle keeps its slot for as long as it lives.  A function that takes a handle *by value* and
+    lets the `FrameBox` inside it (it is `Copy`) flow into its return value must move the handle itself along:
+    otherwise the handle is dropped on return - which frees the slot for handles with a releasing `Drop` - while
+    the caller goes on using the slot through the copied box (`ReceivedPduIter { frame: self.inner }`)."""
+    n = 0
+    for b in prog.bodies:
+        if b.crate != "ethercrab" or b.d.get("is_test") or b.is_closure:
+            continue
+        for l in range(1, b.arg_count + 1):
+            ty = b.local_ty(l).strip()
+            if ty.startswith("&") or ty.startswith("*"):
+                continue
+            h = last_seg(norm(ty))
+            if h not in HANDLE_TYPES:
+                continue
+            n += 1
+            pr = Prov(b)
+            ret = pr.of_local(0)
+            box_out = has_root(ret, "field", h, "inner") and has_root(ret, "arg", l)
+            # the handle as a whole is moved on: into the returned aggregate, or into another function
+            whole = False
+            for bi, blk in enumerate(b.blocks):
+                if blk.get("cleanup"):
+                    continue
+                for st in blk["stmts"]:
+                    if st["k"] == "assign":
+                        for a in st["rv"].get("a", []):
+                            pl = op_place(a)
+                            if pl is not None and pl["l"] == l and not pl["p"] and "move" in a:
+                                whole = True
+                t = blk["term"]
+                if t["k"] == "call":
+                    for a in t["args"]:
+                        pl = op_place(a)
+                        if pl is not None and pl["l"] == l and not pl["p"] and "move" in a:
+                            whole = True
+            # handles without a Drop impl release nothing; a function that itself moves the slot on to another
+            # state (mark_sendable: Created -> Sendable) is the documented hand-over - the consumed handle's Drop is a
+            # compare-exchange from its own state and leaves the slot alone (checked by S6)
+            has_drop = bool(prog.impls_of("Drop", h))
+            hands_over = any(c.is_("FrameBox::set_state", "FrameBox::swap_state", "FrameElement::set_state", "FrameElement::swap_state") for c in b.calls())
+            ok = not box_out or whole or not has_drop or hands_over
+            if box_out and not whole and ok:
+                whole = None
+            rep.ob(P + ".S5e", "%s:handle-travels-with-its-box%s" % (b.root_short, tag), ok,
+                   "%s consumes a %s; %s" % (b.root_short, h, "its FrameBox does not reach the return value" if not box_out else ("the returned value carries the FrameBox together with the handle itself" if whole else "the function hands the slot on to its next state itself (or the handle has no releasing Drop)" if whole is None else "the returned value carries a copy of the FrameBox but the handle is dropped on return: the slot is released (or left without an owner) while the caller still uses it")),
+                   loc=b.span, how="dataflow", nontrivial=box_out)
+    rep.floor(P + " functions consuming a typestate handle" + tag, n, 5)
+
+
 def s6_send(prog, rep, P, tag=""):
     b = prog.body("SendableFrame::send_blocking")
     ms = _blocks_calling(b, "SendableFrame::mark_sent")
